@@ -18,6 +18,7 @@ sys.path.insert(0, os.path.join(ROOT, "tools"))
 import props as PROPS   # per-property configuration
 import anchors as ANCHORS  # source fingerprints of the anchored Rust files
 
+TABLE_GROUPS = ["time", "roll", "agg", "map", "drv"]   # tools/gen_tables.py
 ALLOWED_AXIOMS = {
     # Coq standard-library axioms behind Reals (DESIGN.md section 6); nothing else is accepted
     "ClassicalDedekindReals.sig_forall_dec",
@@ -418,8 +419,22 @@ def check(prop, tier, seed, only=None, only_bin=None):
         gen_note = gout.strip()
         # which conformance file(s) re-check the generated tables for this property (default: the tea-time tables;
         # C05 / C06 name Proofs/SrcTablesRoll.vo, the rolling-family min_periods shapes)
-        if grc == 0:
-            targets.extend(cfg.get("src_tables_proofs", ["Proofs/SrcTablesOk.vo"]))
+        # exit 3: some family groups could not be translated (they keep their last translatable text), the others were; only a
+        # property whose conformance files read an unavailable group loses its static tie
+        proofs = cfg.get("src_tables_proofs", ["Proofs/SrcTablesOk.vo"])
+        needs = set()
+        for pf in proofs:
+            b = os.path.basename(pf)
+            needs |= ({"time"} if b.startswith("SrcTablesOk") else {"roll"} if b.startswith("SrcTablesRoll") else
+                      {"agg"} if b.startswith("SrcTablesAgg") else {"drv"} if b.startswith("SrcTablesDrv") else
+                      {"map", "agg"} if b.startswith("SrcTablesMap") else set(TABLE_GROUPS))
+        unavailable = set()
+        if grc == 3:
+            m = re.search(r"UNAVAILABLE groups: ([\w,]+):", gout)
+            unavailable = set(m.group(1).split(",")) if m else set(TABLE_GROUPS)
+        if grc == 0 or (grc == 3 and not (unavailable & needs)):
+            targets.extend(proofs)
+            if grc == 3: gen_note = "groups %s unavailable, not read by this property; " % ",".join(sorted(unavailable)) + gout.strip()[-200:]
         else:
             # the source no longer has a shape the (deliberately tiny) translator recognises.  That is not evidence of a
             # defect — a helper function introduced by a refactoring is enough — and the translator is a SUPPLEMENTARY tie: the
